@@ -473,7 +473,7 @@ GenNext ==
      \/ (RandomElement(1..2) = 1 /\ Block) \/ (RandomElement(1..2) = 1 /\ Epoch) \/ (RandomElement(1..2) = 1 /\ Stale)
      \/ Month
      \/ (WithRelay /\ \E pv \in One(Providers), cu \in One({10, 70, 150, 400}) : Relay(pv, cu))
-     \/ (WithRelay /\ \E pv \in One(Providers), cu \in One({10, 70}) : Relay(pv, cu))
+     \/ (WithRelay /\ \E pv \in One(Providers), cu \in One({1, 10, 70}) : Relay(pv, cu))
 Emit == nops < MaxOps \/ PrintT(<<"BEH", ToJson(hist)>>)
 NoHistView == <<now, tm, pl, sv, mt, ct, tcu, bal, mb, pay, owed, nmonths, panicked, nops>>
 
